@@ -98,3 +98,56 @@ func VpScramble(b *Board) *Board {
 // the search never reads.
 func VpSetPos(b *Board, v uint64) { b.fullMoves = int(v) }
 func VpGetPos(b *Board) uint64     { return uint64(b.fullMoves) }
+
+// VpSymBoardMinors: both kings on the driver's squares and up to n minor pieces, each of them present or absent, a
+// knight or a bishop, of either colour, on an arbitrary free square (all symbolic); every other square is empty.
+func VpSymBoardMinors(stm Color, wk, bk, n int) *Board {
+	b := &Board{}
+	var present, bishop, black [4]bool
+	var at [4]int
+	for i := 0; i < n; i++ {
+		present[i] = vp.BitsI("mpresent", i, 1) == 1
+		bishop[i] = vp.BitsI("mbishop", i, 1) == 1
+		black[i] = vp.BitsI("mblack", i, 1) == 1
+		at[i] = int(vp.BitsI("msq", i, 6))
+		vp.Assume(at[i] != wk && at[i] != bk)
+		for j := 0; j < i; j++ {
+			vp.Assume(!(present[i] && present[j] && at[i] == at[j]))
+		}
+	}
+	var pcs [7][64]bool
+	var cols [2][64]bool
+	for sq := 0; sq < 64; sq++ {
+		p, blk := NoPiece, false
+		switch sq {
+		case wk:
+			p = King
+		case bk:
+			p, blk = King, true
+		default:
+			for i := 0; i < n; i++ {
+				if present[i] && at[i] == sq {
+					p, blk = Knight, black[i]
+					if bishop[i] {
+						p = Bishop
+					}
+				}
+			}
+		}
+		b.SquaresToPiece[sq] = p
+		for k := Pawn; k <= King; k++ {
+			pcs[k][sq] = p == k
+		}
+		cols[White][sq] = p != NoPiece && !blk
+		cols[Black][sq] = p != NoPiece && blk
+	}
+	for k := Pawn; k <= King; k++ {
+		b.Pieces[k] = BitBoard(vp.Pack64(&pcs[k]))
+	}
+	b.Colors[White] = BitBoard(vp.Pack64(&cols[White]))
+	b.Colors[Black] = BitBoard(vp.Pack64(&cols[Black]))
+	b.STM = stm
+	b.FiftyCnt = Depth(vp.Bits("fifty", 7))
+	b.fullMoves = 1
+	return b
+}
